@@ -537,6 +537,10 @@ def witness_replay(ctx):
     for i, (p, o) in enumerate(zip(preds, obs)):
         if o.get("outcome") == "unsupported":
             return None
+        if o.get("diverged"):
+            # the gate shim could not enforce the schedule on the native processes (timing under load): this run says
+            # nothing about the model either way -- counted as not replayable, never as agreement
+            raise RuntimeError("schedule replay diverged")
         if p["outcome"] == "crash" or o.get("outcome") == "crash":
             if p["outcome"] != o.get("outcome"):
                 return _wm({"step": i, "op": scenario["steps"][i], "model": p, "native": o, "shim": scenario.get("shim")}, scenario)
